@@ -54,6 +54,14 @@ Definition upd (f : proc -> phase) (p : proc) (v : phase) : proc -> phase :=
 
 Definition init : st := {| jobs := []; bak := None; lock := None; ph := fun _ => Out; dirs := [] |}.
 
+(* how a block that raised was left: the class of the exception handed to __exit__.  The code
+   tests `exc_type is None` (before rmtree) and `if exc_type:` (before wait) in __exit__, so every class is treated alike;
+   the class is part of the event so that histories distinguish them (variant below, correspondence) *)
+Inductive exc_class :=
+| ExcError        (* an instance of Exception (user error, failed experiment, ...) *)
+| ExcExit.        (* a BaseException that is not an Exception: SystemExit (sys.exit), KeyboardInterrupt,
+                     GeneratorExit, asyncio.CancelledError, a BaseExceptionGroup of those, ... *)
+
 Inductive event :=
 | Lock (p : proc)                (* connector.lock(xplockpath, 0).__enter__()   (l.971) *)
 | MkBak (p : proc)               (* jobsbakpath.mkdir(exist_ok=True)            (l.976) *)
@@ -65,7 +73,7 @@ Inductive event :=
 | RmEntry (p : proc) (n : jobid) (* rmtree(jobsbakpath) removes one link        (l.1019-1020) *)
 | RmBakDir (p : proc)            (* rmtree removes the directory itself *)
 | Done (p : proc)                (* wait() is over, the lock is released, __exit__ returns (l.1032-1052) *)
-| EndExc (p : proc)              (* the block raised: __exit__(exc, ...) keeps the backup, releases the lock *)
+| EndExc (p : proc) (c : exc_class) (* the block raised: __exit__(exc, ...) keeps the backup, releases the lock *)
 | Kill (p : proc)                (* the process dies; its fcntl lock dies with it *)
 | MkJobDir (j : jobid)           (* environment: a job directory appears in workspace/jobs *)
 | RmJobDir (j : jobid).          (* environment: a job directory is deleted (e.g. orphans --clean) *)
@@ -73,7 +81,7 @@ Inductive event :=
 Definition actor (e : event) : option proc :=
   match e with
   | Lock p | MkBak p | Move p _ | Ready p | Submit p _ | Link p _ | EndOk p
-  | RmEntry p _ | RmBakDir p | Done p | EndExc p | Kill p => Some p
+  | RmEntry p _ | RmBakDir p | Done p | EndExc p _ | Kill p => Some p
   | MkJobDir _ | RmJobDir _ => None
   end.
 
@@ -169,7 +177,8 @@ Definition step (s : st) (e : event) : option st :=
           else None
       | _ => None
       end
-  | EndExc p =>
+  | EndExc p _ =>
+      (* whatever the class: `exc_type is None` is false, nothing is removed, wait() is skipped *)
       match ph s p with
       | Inside _ _ => Some (mk (jobs s) (bak s) (release p (lock s)) (upd (ph s) p Out) (dirs s))
       | _ => None
@@ -231,6 +240,21 @@ Definition step_replace (s : st) (e : event) : option st :=
   end.
 Definition run_replace (s : st) (tr : list event) : option st :=
   fold_left (fun os e => match os with Some s => step_replace s e | None => None end) tr (Some s).
+
+(* an __exit__ whose guard is "the block did not raise an *Exception*" (isinstance(exc_value, Exception))
+   instead of "the block did not raise" (exc_type is None): leaving through sys.exit / KeyboardInterrupt
+   then counts as a normal end for the backup (rmtree(jobs.bak)) although wait() is still skipped *)
+Definition step_exconly (s : st) (e : event) : option st :=
+  match e with
+  | EndExc p ExcExit =>
+      match ph s p with
+      | Inside _ _ => Some (mk (jobs s) None (release p (lock s)) (upd (ph s) p Out) (dirs s))
+      | _ => None
+      end
+  | _ => step s e
+  end.
+Definition run_exconly (s : st) (tr : list event) : option st :=
+  fold_left (fun os e => match os with Some s => step_exconly s e | None => None end) tr (Some s).
 
 (* ---- what `lock : option proc` abstracts: the lock *file* -------------------------------------
    fasteners.InterProcessLock.acquire opens the path once (`_do_open`, creating the file when it
